@@ -39,10 +39,10 @@ PLAN = {
         rule=("histories (pure data op lists, <= 40 steps quick / 80 thorough) on a chain with 1..5 (8) freshly bonded oracles of generated stakes: votes with nonce choice {own+1, last observed+1, own, own+2, far} "
               "and up to 3 competing variants per event nonce over a generated plan of claim types, executeClaim through the precompile (also repeated / never parked), governance oracle-list updates, bond, add-delegate, "
               "unbond, a remove->withdraw->re-approve->re-bond cycle, end-blocks (slashing with a small signed window) and oracle-set confirmations. Invariants after every step over the raw stores and a model of the "
-              "per-oracle cursor. non-trivial = >= 2 variants of one nonce received votes and some nonce was observed, or stake/membership changed while an attestation was open; distinct = distinct (oracle count, plan, op-kind/argument-class sequence)"),
+              "per-oracle cursor. TestC01Reenter: parked inbound bridge calls whose target contract re-enters crosschain.executeClaim (for itself directly / twice / through a second contract, or for another parked claim; caught or propagated; returning or reverting): each claim credits at most its amount. non-trivial = >= 2 variants of one nonce received votes and some nonce was observed, or stake/membership changed while an attestation was open; distinct = distinct (oracle count, plan, op-kind/argument-class sequence)"),
         assumptions=["claims enter through the MsgClaim handler with the unpacked claim (on this snapshot MsgClaim fails ValidateBasic after wire decoding, see DESIGN.md)", "pruning beyond 100 nonces is not reached in the quick tier"],
-        quick=[dict(test="TestC01", cases=1600, shards=8, timeout=900)],
-        thorough=[dict(test="TestC01", cases=48000, shards=16, timeout=3400, shrink=120)],
+        quick=[dict(test="TestC01", cases=1600, shards=8, timeout=900), dict(test="TestC01Reenter", cases=400, shards=4, timeout=900)],
+        thorough=[dict(test="TestC01", cases=48000, shards=14, timeout=3400, shrink=120), dict(test="TestC01Reenter", cases=8000, shards=2, timeout=3400)],
     ),
     "C02": dict(
         level="exploration",
